@@ -20,4 +20,32 @@ CLAIMS = {
           'iostream internals trusted; only instantiations in gen/driver.cpp'),
     technique='static analysis: module-wide global/effect/call-graph facts over LLVM IR (pointer-provenance write summaries)'),
 }
+CLAIMS['C05'] = dict(
+    level='proof',
+    text=('Every mutating member of ST::buffer<T> (4 element types) is abstractly interpreted from every entry scenario the class '
+          'invariant allows (in-object / heap size class of each object, this==other); at every exit the invariant (own storage, '
+          'capacity, NUL at size, single owner, no leak / double free / out-of-bounds write) and the per-operation size and content '
+          'clauses are discharged. Being inductive, the invariant holds after any finite history, moved-from objects included.'),
+    note=('relative to: clang-14 lowering, STIR and its models of char_traits and operator new[]/delete[]; element counts < 2^47; '
+          'user writes through data() are outside the analysis'),
+    technique='static analysis: path-sensitive abstract interpretation over LLVM IR (ownership + linear-term/interval domains), inductive class invariant')
+CLAIMS['C16'] = dict(
+    level='proof',
+    text=('Every mutating member of ST::string_stream is abstractly interpreted from both storage modes (and this==other for move '
+          'assignment); the class invariant and the byte-string-model clause of each operation (where the appended range lands, how '
+          'm_size changes, that growth preserves [0,m_size), what a move leaves in source and target) are discharged at every exit; the '
+          'doubling loop is handled by widening with inductively verified bounds; every operator<< is shown to write the stream only '
+          'through append/append_char. Induction over operations gives content == concatenation for all histories.'),
+    note=('relative to: clang-14 lowering, STIR and its models; sizes < 2^47; the bytes produced by conversions and number formatting '
+          'that operator<< inserts are the subject of C01/C03/C12/C13, not of this check'),
+    technique='static analysis: path-sensitive abstract interpretation over LLVM IR with loop widening + Houdini invariants; call-graph funnel')
+CLAIMS['C19'] = dict(
+    level='proof',
+    text=('At every operator new[] inside the two owner classes the interpreter forks a std::bad_alloc path; at each exceptional exit '
+          'every object satisfies its class invariant, no block is leaked or freed twice and the target is unchanged or empty. '
+          'Module-wide facts close the argument for the rest of the library: raw allocation only in the owners, no noexcept boundary '
+          'around a may-throw callee, no landing pad that swallows bad_alloc, only owners release storage.'),
+    note=('relative to: clang-14 lowering, STIR, throw model of externals; a single failing allocation per operation; operations '
+          'outside the owners hold owners by value so unwinding releases through the verified destructors'),
+    technique='static analysis: abstract fault enumeration at allocation sites (STIR) + throw-set / landing-pad / allocation-site facts over LLVM IR')
 NOT_APPLICABLE = {}
